@@ -280,17 +280,21 @@ def run(chk):
 
     # ---------------- R07.4: billing aggregation sums observed and predicted of the *same* (masked) frame
     r4 = chk.rule("R07.4", "billing aggregation reads observed and predicted from the frame returned by _predict (the one whose usage was masked), with the same frequency", 2)
-    from rules.c19 import aggregation_table
+    from rules.billing_agg import billing_outcomes
     for mc in (BILLING_MODEL, WEIGHTED_MODEL):
         c = chk.repo.cls(*mc)
         p = method(chk, c, "predict")
-        src, table = aggregation_table(chk, p)
-        o, pr = table.get("observed"), table.get("predicted")
-        ok = o is not None and pr is not None and o[2] == pr[2] == src and o[1] == pr[1] and o[0] == pr[0] == "sum"
-        r4.require(ok, f"{p.key}|observed-and-predicted-from-masked-frame", p.where(o[3]) if o else p.where(),
-                   f"{p.qualname}: aggregated observed is read from `{o[2] if o else None}` and predicted from `{pr[2] if pr else None}` (the _predict result is `{src}`): "
-                   f"observed must come from the frame whose usage was masked on days without temperature, otherwise period sums include days that got no prediction",
-                   sample={"function": p.qualname, "observed_from": o[2] if o else None, "predicted_from": pr[2] if pr else None})
+        out = billing_outcomes(chk, p, {"BillingModel", "DailyModel", c.name})
+        for agg in ("monthly", "bimonthly"):
+            o = out[(agg, True)]
+            items = {i.get("column"): i for i in o.get("items", [])} if o.get("returns") == "concat" else {}
+            ob, pr = items.get("observed"), items.get("predicted")
+            ok = ob is not None and pr is not None and ob["from"] == pr["from"] == "predict" and not ob["from_ops"] and not pr["from_ops"] and ob["rule"] == pr["rule"] \
+                and ob["reduction"] == pr["reduction"] == "sum(x)"
+            r4.require(ok, f"{p.key}|observed-and-predicted-from-masked-frame|{agg}", p.where(),
+                       f"{p.qualname} (aggregation={agg!r}): aggregated observed is {ob} and predicted is {pr}: both must be plain period sums of the frame returned by self._predict "
+                       f"(the one whose usage was masked on days without temperature), otherwise period sums include days that got no prediction",
+                       sample={"function": p.qualname, "observed": ob, "predicted": pr})
 
     # ---------------- R07.3 (b): _initialize_data complement pair
     for c in fams:
